@@ -277,6 +277,9 @@ LOCS = {"lineno": "int", "col_offset": "int", "end_lineno": "int", "end_col_offs
 LOCARGS = "lineno, col_offset, end_lineno, end_col_offset"
 INL = ["xonsh_call", "load_attribute_chain"]
 
+# an expression handed to a builder: of any class (the classes some builder tells apart, and "any other node")
+EXPR = "union[obj:ast.Constant|obj:ast.Starred|obj:ast.Tuple|obj:ast.Name|obj:PosNode]"
+
 C(f"{F}:Parser.expand_env_name", params={"self": "obj:Parser", "name": "Tok", "ctx": "opt[union[const:Load|const:Store]]=None", **LOCS}, inline=INL,
   ensures=["implies(is_none(old(ctx)), is_translation(result, '__xonsh__.env[S0]', name.string))",
            # as a binding target (ctx given): the same subscript with that context
@@ -285,7 +288,7 @@ C(f"{F}:Parser.expand_env_name", params={"self": "obj:Parser", "name": "Tok", "c
            f"all_located(result, {LOCARGS})"],
   raises=[], pure=True, properties=["C05"])
 
-C(f"{F}:Parser.expand_env_expr", params={"self": "obj:Parser", "slices": "obj:PosNode", "ctx": "opt[union[const:Load|const:Store]]=None", **LOCS}, inline=INL,
+C(f"{F}:Parser.expand_env_expr", params={"self": "obj:Parser", "slices": EXPR, "ctx": "opt[union[const:Load|const:Store]]=None", **LOCS}, inline=INL,
   ensures=["implies(is_none(old(ctx)), is_translation(result, '__xonsh__.env[str(H0)]', slices))",
            "isinstance(result, ast.Subscript) and is_translation(result.value, '__xonsh__.env') and is_translation(result.slice, 'str(H0)', slices)",
            "implies(not is_none(old(ctx)), result.ctx is old(ctx))", f"all_located(result, {LOCARGS}, slices)"],
@@ -294,7 +297,7 @@ C(f"{F}:Parser.expand_env_expr", params={"self": "obj:Parser", "slices": "obj:Po
 C(f"{F}:Parser.expand_search_path", params={"self": "obj:Parser", "a": "Tok", **LOCS}, inline=INL,
   ensures=["is_translation(result, '__xonsh__.pathsearch(S0)', a.string)", f"all_located(result, {LOCARGS})"], raises=[], pure=True, properties=["C05"])
 
-C(f"{F}:Parser.proc_pyexpr", params={"self": "obj:Parser", "expr": "obj:PosNode", **LOCS}, inline=INL,
+C(f"{F}:Parser.proc_pyexpr", params={"self": "obj:Parser", "expr": EXPR, **LOCS}, inline=INL,
   ensures=["isinstance(result, ast.Starred) and is_translation(result.value, '__xonsh__.list_of_strs_or_callables(H0)', expr)", f"all_located(result, {LOCARGS}, expr)"],
   raises=[], pure=True, properties=["C05", "C06"])
 
@@ -308,7 +311,7 @@ C(f"{F}:Parser.proc_inject", params={"self": "obj:Parser", "args": "seq[val]", *
   raises=[], pure=True, properties=["C05", "C06"])
 
 # macros: the raw text of every argument / of the block is handed over as a string Constant placed AT that text, with globals() and locals()
-C(f"{F}:Parser.macro_call", params={"self": "obj:Parser", "a": "obj:PosNode", "b": "seq[Tok]", **LOCS}, inline=INL,
+C(f"{F}:Parser.macro_call", params={"self": "obj:Parser", "a": EXPR, "b": "seq[Tok]", **LOCS}, inline=INL,
   ensures=["is_translation(result, '__xonsh__.call_macro(H0, (*_,), globals(), locals())', a)",
            # one string per argument, in order, none dropped or added; each carries the argument's own text and position
            "len(result.args[1].elts) == len(b)",
